@@ -94,6 +94,11 @@ export function genOp(rng, D, fields, listFields = ['list', 'arr'], prefer = [])
   return { op: 'set', path: [f], vseed: rng.u32(), retype: true }
 }
 
+function structuredCloneSafe(v) {
+  if (Array.isArray(v)) return v.map(structuredCloneSafe)
+  if (v && typeof v === 'object' && Object.getPrototypeOf(v) === Object.prototype) return Object.fromEntries(Object.entries(v).map(([k, x]) => [k, structuredCloneSafe(x)]))
+  return v
+}
 function listAfter(cur, o) {
   const a = Array.isArray(cur) ? cur.slice() : []
   const it = () => (o.field === 'list' ? itemOf(o.vseed) : valueOf(o.vseed))
@@ -104,7 +109,9 @@ function listAfter(cur, o) {
     case 'remove': a.splice(Math.min(o.index, Math.max(0, a.length - 1)), 1); break
     case 'reverse': a.reverse(); break
     case 'rotate': if (a.length) a.push(a.shift()); break
-    case 'dupKey': if (a.length) a.push(o.field === 'list' && a[0] && typeof a[0] === 'object' ? { ...a[0], v: 'dup' } : a[0]); break
+    // (a deep copy: two items that share a nested object would both change when a path through one of them is set,
+    //  which no path-based update can know)
+    case 'dupKey': if (a.length) a.push(o.field === 'list' && a[0] && typeof a[0] === 'object' ? { ...structuredCloneSafe(a[0]), v: 'dup' } : structuredCloneSafe(a[0])); break
     case 'clear': a.length = 0; break
     case 'replaceAll': return Array.from({ length: o.index % 4 }, (_, i) => (o.field === 'list' ? itemOf(o.vseed + i) : valueOf(o.vseed + i)))
   }
@@ -141,13 +148,15 @@ export function applyOp(D, o) {
     case 'key': {
       const cur = get(D, o.path)
       if (cur === null || typeof cur !== 'object' || Array.isArray(cur)) return []
-      if (o.kind === 'del') { if (!(o.key in cur)) return []; delete cur[o.key]; return [[...o.path, o.key]] }
+      if (o.kind === 'del' && !(o.key in cur)) return []
       if (o.kind === 'add') { cur[o.key] = valueOf(o.vseed); return [[...o.path, o.key]] }
-      // addFront: the new key comes first in iteration order (the object is rebuilt in place)
-      const old = { ...cur }
-      for (const k of Object.keys(cur)) delete cur[k]
-      cur[o.key] = valueOf(o.vseed)
-      for (const k of Object.keys(old)) if (k !== o.key) cur[k] = old[k]
+      // del / addFront (the new key comes first in iteration order): as through the component API, the parent object
+      // is replaced by one with the other key set
+      const next = Object.create(Object.getPrototypeOf(cur))
+      if (o.kind === 'addFront') next[o.key] = valueOf(o.vseed)
+      for (const k of Object.keys(cur)) if (k !== o.key) next[k] = cur[k]
+      const holder = o.path.length > 1 ? get(D, o.path.slice(0, -1)) : D
+      holder[o.path[o.path.length - 1]] = next
       return [[...o.path, o.key]]
     }
   }
